@@ -657,6 +657,10 @@ class SymReal:
         raise Unsupported('nonfinite %s' % op)
 
     def _bin(self, o, op, rev=False):
+        if isinstance(o, (complex, np.complexfloating, SymComplex)):
+            me = SymComplex(self, 0)
+            oc = o if isinstance(o, SymComplex) else SymComplex(o.real, o.imag)
+            return me._bin(oc, op) if not rev else oc._bin(me, op)
         o = self._other(o)
         if o is None:
             return NotImplemented
@@ -912,7 +916,7 @@ class SymReal:
     def __array_ufunc__(self, ufunc, method, *inputs, **kw):
         if method != '__call__':
             return NotImplemented
-        kw.pop('out', None) if kw.get('out') is None else None
+        out = kw.pop('out', None)
         if kw:
             return NotImplemented
         name = ufunc.__name__
@@ -920,10 +924,18 @@ class SymReal:
             arrs = [i.astype(object) if isinstance(i, np.ndarray) else i for i in inputs]
             arrs = [a if isinstance(a, np.ndarray) else _obj0(a) for a in arrs]
             res = ufunc(*arrs)
+            if out is not None:
+                tgt = out[0] if isinstance(out, tuple) else out
+                if tgt.dtype != object:
+                    return NotImplemented
+                tgt[...] = res
+                return tgt
             for i in inputs:
                 if isinstance(i, np.ndarray) and type(i) is not np.ndarray:
                     return res.view(type(i))
             return res
+        if out is not None:
+            return NotImplemented
         ins = [i.item() if isinstance(i, np.ndarray) else i for i in inputs]
         return scalar_ufunc(name, ins)
 
@@ -1001,6 +1013,136 @@ def smin(a, b):
 
 
 numbers.Real.register(SymReal)
+
+
+class SymComplex:
+    """complex number whose real and imaginary parts are (possibly symbolic) reals"""
+    __array_priority__ = 1001
+
+    def __init__(self, re, im):
+        self.re, self.im = SymComplex._norm(re), SymComplex._norm(im)
+
+    @staticmethod
+    def _norm(x):
+        if isinstance(x, SymReal):
+            e = z3.simplify(x.e)
+            if z3.is_rational_value(e):
+                v = _as_py(e)
+                return int(v) if v.denominator == 1 else float(v) if float(v) == v else v
+            return x if isinstance(x, SymInt) else SymReal(e)
+        return x
+
+    real = property(lambda self: self.re)
+    imag = property(lambda self: self.im)
+
+    @staticmethod
+    def _c(o):
+        if isinstance(o, SymComplex):
+            return o
+        if isinstance(o, (complex, np.complexfloating)):
+            return SymComplex(float(o.real), float(o.imag))
+        if isinstance(o, (SymReal, int, float, np.integer, np.floating, fractions.Fraction)) and not isinstance(o, bool):
+            return SymComplex(o, 0)
+        return None
+
+    def _bin(self, o, op):
+        o = SymComplex._c(o)
+        if o is None:
+            return NotImplemented
+        a, b, c, d = self.re, self.im, o.re, o.im
+        if op == 'add':
+            return SymComplex(a + c, b + d)
+        if op == 'sub':
+            return SymComplex(a - c, b - d)
+        if op == 'mul':
+            return SymComplex(a * c - b * d, a * d + b * c)
+        if op == 'div':
+            den = c * c + d * d
+            return SymComplex((a * c + b * d) / den, (b * c - a * d) / den)
+        raise Unsupported(op)
+
+    def __add__(self, o): return self._bin(o, 'add')
+    __radd__ = __add__
+    def __sub__(self, o): return self._bin(o, 'sub')
+    def __rsub__(self, o):
+        o = SymComplex._c(o)
+        return NotImplemented if o is None else o._bin(self, 'sub')
+    def __mul__(self, o): return self._bin(o, 'mul')
+    __rmul__ = __mul__
+    def __truediv__(self, o): return self._bin(o, 'div')
+    def __rtruediv__(self, o):
+        o = SymComplex._c(o)
+        return NotImplemented if o is None else o._bin(self, 'div')
+    def __neg__(self): return SymComplex(-self.re, -self.im)
+    def __pos__(self): return self
+    def conjugate(self): return SymComplex(self.re, -self.im)
+    conj = conjugate
+
+    def __abs__(self):
+        n2 = self.re * self.re + self.im * self.im
+        return n2.sqrt() if isinstance(n2, SymReal) else math.sqrt(n2)
+
+    def __eq__(self, o):
+        o = SymComplex._c(o)
+        if o is None:
+            return False
+        return sand(self.re == o.re, self.im == o.im)
+
+    def __ne__(self, o):
+        return snot(self.__eq__(o))
+
+    __hash__ = None
+
+    def __copy__(self): return self
+    def __deepcopy__(self, m): return self
+    def __repr__(self): return POISON
+    __str__ = __repr__
+    def __format__(self, spec): return POISON
+
+    def exp(self):
+        """e^(a+ib) = e^a (cos b + i sin b); cos/sin/exp uninterpreted, with the instantiated axiom cos^2 + sin^2 = 1"""
+        b = self.im if isinstance(self.im, SymReal) else SymReal(lift(self.im))
+        c, s = b.cos(), b.sin()
+        E = ENG()
+        if E is not None and E.mode == 'sym':
+            E.axiom('cos(t)^2 + sin(t)^2 = 1', c.e * c.e + s.e * s.e == 1)
+        zero_re = not isinstance(self.re, SymReal) and self.re == 0
+        if zero_re:
+            return SymComplex(c, s)
+        a = self.re if isinstance(self.re, SymReal) else SymReal(lift(self.re))
+        m = a.exp()
+        return SymComplex(m * c, m * s)
+
+    def __array_ufunc__(self, ufunc, method, *inputs, **kw):
+        if method != '__call__' or kw:
+            return NotImplemented
+        name = ufunc.__name__
+        if any(isinstance(i, np.ndarray) and i.ndim > 0 for i in inputs):
+            arrs = [i.astype(object) if isinstance(i, np.ndarray) else _obj0(i) for i in inputs]
+            return ufunc(*arrs)
+        ins = [i.item() if isinstance(i, np.ndarray) else i for i in inputs]
+        if name == 'exp':
+            return ins[0].exp()
+        if name in ('conjugate', 'conj'):
+            return ins[0].conjugate()
+        if name in ('absolute', 'fabs'):
+            return abs(ins[0])
+        if name in ('isinf', 'isnan'):
+            return False
+        if name == 'isfinite':
+            return True
+        ops = {'add': 'add', 'subtract': 'sub', 'multiply': 'mul', 'true_divide': 'div', 'divide': 'div'}
+        if name in ops:
+            a = SymComplex._c(ins[0])
+            return NotImplemented if a is None else a._bin(ins[1], ops[name])
+        if name == 'negative':
+            return -ins[0]
+        if name == 'equal':
+            return ins[0] == ins[1]
+        return NotImplemented
+
+
+numbers.Complex.register(SymComplex)
 
 
 # ---------------------------------------------------------------------- SymInt
